@@ -921,6 +921,7 @@ class BackendZ3(Backend):
 
         return model
 
+    @condom
     def _satisfiable(self, extra_constraints=(), solver=None, model_callback=None):
         self.solve_count += 1
 
@@ -1059,6 +1060,7 @@ class BackendZ3(Backend):
     def _is_true(self, e, extra_constraints=(), solver=None, model_callback=None):
         return z3.simplify(e).eq(z3.BoolVal(True, ctx=self._context))
 
+    @condom
     def _solution(self, expr, v, extra_constraints=(), solver=None, model_callback=None):
         if isinstance(v, str):
             v = self._string_literal(v)
